@@ -1,14 +1,23 @@
 // C20 correspondence harness: drives vita::small_vector<T,S> (S = 1..8, T = int, double,
-// std::string, Tracked) through scripts of public operations on two vectors ("registers"
+// std::string, Tracked, Pod) through scripts of public operations on two vectors ("registers"
 // 0 and 1) and keeps a std::vector<T> next to each of them as the harness's own oracle.
 //
 // requests (one answer line each)
-//   new <int|double|string|tracked> <S>       start a script (both registers default-constructed)
+//   new <int|double|string|tracked|pod> <S>   start a script (both registers default-constructed)
 //   <r> ctorN n | ctorNX n id | ctorList k id… | ctorCopy | ctorMove
 //   <r> assignCopy | assignMove | assignSelf | clear
 //   <r> pushBack v id | pushBack s i | emplaceBack v id | emplaceBack s i
-//   <r> insert pos k id… | resize n | reserve n | setAt i id | getAt i | cmpEq | cmpLt
+//   <r> emplaceBack a<k> id                   emplace_back with k = 0..3 constructor arguments
+//   <r> insert pos k id… | insertL pos k id… (from std::list iterators) | resize n | reserve n
+//   <r> setAt i id | getAt i
+//   <r> cmp <eq|ne|lt|gt|le|ge> | cmpEq | cmpLt          obs = <small_vector><std::vector><c|i>
+//   <r> cmpMixed <S2> <op> <flip>             x op t / t op x with t a small_vector<T,S2> copy of y
+//   <r> front | back | setFront id | setBack id | dataAt i | setData i id
+//   <r> iterFwd | iterRev | empty | size | capOk | maxSize
 //   end                                       destroy both vectors, lifetime balance + leak check
+// Element VALUES: an id names a representation; `==` / `<` of the element type are not the
+// identity / order of ids:  double 90000001 = -0.0, 90000002/3 = NaNs, 4 = +inf, 5 = -inf,
+// 6 = -1.0, 7 = denorm_min, 8 = -2.0;  pod id = aux * 1000000 + key, compared by key only.
 // answer:  ok <obs> | <reg0> | <reg1> | ev <coa> <draw> <araw> <rraw> <rmoved>
 //   <reg> = S size cap e0,e1,… # o0,o1,…     (elements of the small_vector # elements of the oracle)
 //         = U size cap                        (moved-from: contents unspecified, not read)
@@ -23,7 +32,9 @@
 #include "utility/small_vector.h"
 
 #include <cmath>
+#include <list>
 #include <memory>
+#include <type_traits>
 #include <new>
 #include <cstdlib>
 #include <unordered_map>
@@ -32,7 +43,16 @@
 // Count the blocks obtained from the global allocation functions (small_vector calls
 // ::operator new / ::operator delete directly, std::string goes through std::allocator):
 // the balance over a script is an exact, cheap leak check; LeakSanitizer still runs at exit.
-static long live_allocs = 0;
+// The file is compiled in six parts (-DC20_PART=0..5: main + allocation functions, then one
+// element type each) so that the instantiations build in parallel; without C20_PART it is one TU.
+#if defined(C20_PART)
+#  define C20_HAS(n) (C20_PART == (n))
+#else
+#  define C20_HAS(n) 1
+#endif
+
+inline long live_allocs = 0;
+#if C20_HAS(0)
 void *operator new(std::size_t n)
 {
   void *p = std::malloc(n ? n : 1);
@@ -45,13 +65,14 @@ void operator delete(void *p) noexcept { if (p) { --live_allocs; std::free(p); }
 void operator delete[](void *p) noexcept { ::operator delete(p); }
 void operator delete(void *p, std::size_t) noexcept { ::operator delete(p); }
 void operator delete[](void *p, std::size_t) noexcept { ::operator delete(p); }
+#endif
 
-namespace
+namespace c20
 {
 // ---------------------------------------------------------------- Tracked
 enum class st : char { live, moved };
-std::unordered_map<const void *, st> registry;
-unsigned long ev_coa = 0, ev_draw = 0, ev_araw = 0, ev_rraw = 0, ev_rmoved = 0;
+inline std::unordered_map<const void *, st> registry;
+inline unsigned long ev_coa = 0, ev_draw = 0, ev_araw = 0, ev_rraw = 0, ev_rmoved = 0;
 
 struct Tracked
 {
@@ -73,6 +94,8 @@ struct Tracked
 
   Tracked() : id(0) { born(); }
   explicit Tracked(int i) : id(i) { born(); }
+  Tracked(int hi, int lo) : id(hi * 1000 + lo) { born(); }
+  Tracked(int a, int b, int c) : id(a * 1000000 + b * 1000 + c) { born(); }
   Tracked(const Tracked &o) : id(read(o)) { born(); }
   Tracked(Tracked &&o) : id(read(o))
   {
@@ -110,7 +133,39 @@ struct Tracked
   friend bool operator<(const Tracked &a, const Tracked &b) { return read(a) < read(b); }
 };
 
+// ---------------------------------------------------------------- Pod
+// A trivially copyable, trivially default constructible element with padding bytes (after
+// `tag` and after `aux`) and a user-defined equality / order that looks at `key` only: two
+// equal objects may differ in `tag`, `aux` and in the padding.
+struct Pod
+{
+  char tag;
+  int key;
+  short aux;
+
+  Pod() = default;
+  explicit Pod(int id) : tag(tag_of(id % 1000000, id / 1000000)), key(id % 1000000), aux(short(id / 1000000)) {}
+  Pod(int k, int a) : tag(tag_of(k, a)), key(k), aux(short(a)) {}
+  Pod(int t, int k, int a) : tag(char(t)), key(k), aux(short(a)) {}
+
+  static char tag_of(int k, int a) { return char((k + 3 * a) % 101); }
+  friend bool operator==(const Pod &a, const Pod &b) { return a.key == b.key; }
+  friend bool operator<(const Pod &a, const Pod &b) { return a.key < b.key; }
+};
+static_assert(std::is_trivially_copyable_v<Pod> && std::is_trivially_default_constructible_v<Pod>
+              && sizeof(Pod) == 12, "Pod must be plain data with padding");
+
 // ---------------------------------------------------------------- value encodings
+inline const struct { int id; std::uint64_t bits; } dspecial[] = {
+  {90000001, 0x8000000000000000ull},   // -0.0
+  {90000002, 0x7ff8000000000000ull},   // NaN
+  {90000003, 0xfff8000000000001ull},   // another NaN (sign, payload)
+  {90000004, 0x7ff0000000000000ull},   // +inf
+  {90000005, 0xfff0000000000000ull},   // -inf
+  {90000006, 0xbff0000000000000ull},   // -1.0
+  {90000007, 0x0000000000000001ull},   // denorm_min
+  {90000008, 0xc000000000000000ull}};  // -2.0
+
 template<class T> struct conv;
 template<> struct conv<int>
 {
@@ -119,11 +174,34 @@ template<> struct conv<int>
 };
 template<> struct conv<double>
 {
-  static double make(int id) { return double(id); }
-  static std::string show(const double &v)
+  static double make(int id)
   {
+    for (const auto &d : dspecial) if (d.id == id) return verif::from_bits(d.bits);
+    return double(id);
+  }
+  static std::string show(const double &v)   // by bit pattern: -0.0 and the NaNs are distinct ids
+  {
+    const std::uint64_t b = verif::bits(v);
+    for (const auto &d : dspecial) if (d.bits == b) return std::to_string(d.id);
     if (!(v >= 0.0 && v < 1e8) || std::floor(v) != v) return "X";
     return std::to_string(int(v));
+  }
+};
+template<> struct conv<Pod>
+{
+  static Pod make(int id)
+  {
+    Pod p;
+    std::memset(static_cast<void *>(&p), 0x5A ^ (id & 0xff), sizeof p);   // the padding differs from value to value
+    p.key = id % 1000000;
+    p.aux = short(id / 1000000);
+    p.tag = Pod::tag_of(p.key, p.aux);
+    return p;
+  }
+  static std::string show(const Pod &v)
+  {
+    if (v.key < 0 || v.key >= 1000000 || v.aux < 0 || v.aux > 99 || v.tag != Pod::tag_of(v.key, v.aux)) return "X";
+    return std::to_string(int(v.aux) * 1000000 + v.key);
   }
 };
 template<> struct conv<std::string>
@@ -154,6 +232,86 @@ template<> struct conv<Tracked>
   }
 };
 
+// emplace_back with k constructor arguments that denote the element `id` (same call on the
+// small_vector and on the std::vector oracle)
+template<class T> struct emk
+{
+  template<class V> static bool go(V &v, int k, int id)      // int, double
+  {
+    if (k == 0) v.emplace_back();
+    else if (k == 1) v.emplace_back(conv<T>::make(id));
+    else return false;
+    return true;
+  }
+};
+template<> struct emk<std::string>
+{
+  template<class V> static bool go(V &v, int k, int id)
+  {
+    const std::string s(conv<std::string>::make(id));
+    if (k == 0) v.emplace_back();
+    else if (k == 1) v.emplace_back(s.c_str());
+    else if (k == 2) v.emplace_back(s.c_str(), s.size());
+    else if (k == 3) v.emplace_back(s, std::size_t(0), s.size());
+    else return false;
+    return true;
+  }
+};
+template<> struct emk<Tracked>
+{
+  template<class V> static bool go(V &v, int k, int id)
+  {
+    if (k == 0) v.emplace_back();
+    else if (k == 1) v.emplace_back(id);
+    else if (k == 2) v.emplace_back(id / 1000, id % 1000);
+    else if (k == 3) v.emplace_back(id / 1000000, (id / 1000) % 1000, id % 1000);
+    else return false;
+    return true;
+  }
+};
+template<> struct emk<Pod>
+{
+  template<class V> static bool go(V &v, int k, int id)
+  {
+    const int key = id % 1000000, aux = id / 1000000;
+    if (k == 0) v.emplace_back();
+    else if (k == 1) v.emplace_back(id);
+    else if (k == 2) v.emplace_back(key, aux);
+    else if (k == 3) v.emplace_back(int(Pod::tag_of(key, aux)), key, aux);
+    else return false;
+    return true;
+  }
+};
+
+inline int cmp_kind(const std::string &k)
+{
+  static const char *names[6] = {"eq", "ne", "lt", "gt", "le", "ge"};
+  for (int i = 0; i < 6; ++i) if (k == names[i]) return i;
+  return -1;
+}
+
+// the six relational operators of two containers, as a string of six 0/1 (eq ne lt gt le ge)
+template<class A, class B> std::string six(const A &a, const B &b)
+{
+  std::string r;
+  r += (a == b) ? '1' : '0';
+  r += (a != b) ? '1' : '0';
+  r += (a < b) ? '1' : '0';
+  r += (a > b) ? '1' : '0';
+  r += (a <= b) ? '1' : '0';
+  r += (a >= b) ? '1' : '0';
+  return r;
+}
+
+inline std::string cmp_obs(const std::string &got, const std::string &want, int k)
+{
+  std::string obs;
+  obs += got[std::size_t(k)];
+  obs += want[std::size_t(k)];
+  obs += got == want ? "c" : ("i:" + got + "/" + want);
+  return obs;
+}
+
 struct session
 {
   virtual ~session() = default;
@@ -161,7 +319,7 @@ struct session
   virtual std::string finish() = 0;
 };
 
-bool num(const std::string &s, long &out)
+inline bool num(const std::string &s, long &out)
 {
   if (s.empty() || s.size() > 9 || s.find_first_not_of("0123456789") != std::string::npos) return false;
   out = std::stol(s);
@@ -218,6 +376,23 @@ struct session_impl final : session
     return s;
   }
 
+  // `x op t` (flip: `t op x`) where t is a small_vector<T,S2> holding the elements of y
+  template<std::size_t S2> static std::string cmp_mixed(const reg &x, const reg &y, int k, bool flip)
+  {
+    vita::small_vector<T, S2> t;
+    t.insert(t.end(), y.v->begin(), y.v->end());
+    const SV &cx = *x.v;
+    const vita::small_vector<T, S2> &ct = t;
+    return flip ? cmp_obs(six(ct, cx), six(y.o, x.o), k) : cmp_obs(six(cx, ct), six(x.o, y.o), k);
+  }
+
+  static std::string show_list(const std::vector<std::string> &l)
+  {
+    std::string s;
+    for (std::size_t i = 0; i < l.size(); ++i) s += (i ? "," : "") + l[i];
+    return l.empty() ? "-" : s;
+  }
+
   std::string apply(const std::vector<std::string> &t) override
   {
     long ri;
@@ -226,12 +401,33 @@ struct session_impl final : session
     const std::string &op = t[1];
     std::size_t first = 2;
     bool self = false;
+    int nargs = -1;          // emplaceBack a<k>
+    int ck = -1;             // comparison kind
     if (op == "pushBack" || op == "emplaceBack")
     {
-      if (t.size() != 4 || (t[2] != "v" && t[2] != "s")) return "bad-op";
+      if (t.size() != 4) return "bad-op";
+      if (op == "emplaceBack" && t[2].size() == 2 && t[2][0] == 'a' && t[2][1] >= '0' && t[2][1] <= '3')
+        nargs = t[2][1] - '0';
+      else if (t[2] != "v" && t[2] != "s") return "bad-op";
       self = t[2] == "s";
       first = 3;
     }
+    else if (op == "cmp")
+    {
+      if (t.size() != 3 || (ck = cmp_kind(t[2])) < 0) return "bad-op";
+      first = 3;
+    }
+    else if (op == "cmpMixed")
+    {
+      if (t.size() != 5 || (ck = cmp_kind(t[3])) < 0) return "bad-op";
+      long s2, fl;
+      if (!num(t[2], s2) || !num(t[4], fl) || (s2 != 1 && s2 != 4 && s2 != 8) || fl > 1) return "bad-op";
+      a.push_back(s2);
+      a.push_back(fl);
+      first = 5;
+    }
+    else if (op == "cmpEq") ck = 0;
+    else if (op == "cmpLt") ck = 2;
     for (std::size_t i = first; i < t.size(); ++i)
     {
       long v;
@@ -320,16 +516,94 @@ struct session_impl final : session
     else
     {
       // everything below needs a vector with specified contents
-      if (op != "pushBack" && op != "emplaceBack" && op != "insert" && op != "resize" && op != "reserve"
-          && op != "setAt" && op != "getAt" && op != "cmpEq" && op != "cmpLt")
+      static const char *known[] = {"pushBack", "emplaceBack", "insert", "insertL", "resize", "reserve", "setAt",
+        "getAt", "cmpEq", "cmpLt", "cmp", "cmpMixed", "front", "back", "setFront", "setBack", "dataAt", "setData",
+        "iterFwd", "iterRev", "empty", "size", "capOk", "maxSize"};
+      bool ok = false;
+      for (const char *k : known) ok = ok || op == k;
+      if (!ok) return "bad-op";
+      const bool ins = op == "insert" || op == "insertL";
+      if (ins && (a.size() < 2 || a.size() != std::size_t(a[1]) + 2)) return "bad-op";
+      if ((op == "pushBack" || op == "emplaceBack" || op == "resize" || op == "reserve" || op == "getAt"
+           || op == "setFront" || op == "setBack" || op == "dataAt") && !argc(1)) return "bad-op";
+      if ((op == "setAt" || op == "setData") && !argc(2)) return "bad-op";
+      if ((op == "cmpEq" || op == "cmpLt" || op == "cmp" || op == "front" || op == "back" || op == "iterFwd"
+           || op == "iterRev" || op == "empty" || op == "size" || op == "capOk" || op == "maxSize") && !argc(0))
         return "bad-op";
-      if (op == "insert" && (a.size() < 2 || a.size() != std::size_t(a[1]) + 2)) return "bad-op";
-      if ((op == "pushBack" || op == "emplaceBack" || op == "resize" || op == "reserve" || op == "getAt")
-          && !argc(1)) return "bad-op";
-      if (op == "setAt" && !argc(2)) return "bad-op";
-      if ((op == "cmpEq" || op == "cmpLt") && !argc(0)) return "bad-op";
-      if (!x.specified) return "precond";
-      if (op == "pushBack" || op == "emplaceBack")
+      if (nargs >= 2 && (std::is_same_v<T, int> || std::is_same_v<T, double>)) return "bad-op";
+      if (nargs == 0 && a[0] != 0) return "bad-op";
+      const SV &cv = *x.v;
+      if (op == "maxSize")
+      {
+        obs = std::to_string(cv.max_size());
+        if (cv.size() > cv.max_size()) obs = "X";
+      }
+      else if (!x.specified) return "precond";
+      else if (op == "front" || op == "back" || op == "setFront" || op == "setBack")
+      {
+        if (x.v->empty()) return "precond";
+        const bool fr = op == "front" || op == "setFront";
+        if (op[0] == 's')
+        {
+          (fr ? x.v->front() : x.v->back()) = conv<T>::make(int(a[0]));
+          (fr ? x.o.front() : x.o.back()) = conv<T>::make(int(a[0]));
+        }
+        else
+        {
+          const T &cr = fr ? cv.front() : cv.back();
+          T &r = fr ? x.v->front() : x.v->back();
+          obs = conv<T>::show(cr);
+          if (&cr != &r || &r != (fr ? x.v->data() : x.v->data() + (x.v->size() - 1))) obs = "X";
+        }
+      }
+      else if (op == "dataAt" || op == "setData")
+      {
+        if (std::size_t(a[0]) >= x.v->size()) return "precond";
+        const std::size_t i = std::size_t(a[0]);
+        if (op == "setData")
+        {
+          if (i % 2) *(x.v->begin() + i) = conv<T>::make(int(a[1]));
+          else x.v->data()[i] = conv<T>::make(int(a[1]));
+          x.o[i] = conv<T>::make(int(a[1]));
+        }
+        else
+        {
+          obs = conv<T>::show(cv.data()[i]);
+          if (cv.data() != x.v->data() || x.v->data() != x.v->begin() || cv.begin() != cv.cbegin()
+              || cv.data() != cv.begin()) obs = "X";
+        }
+      }
+      else if (op == "iterFwd")
+      {
+        std::vector<std::string> l1, l2, l3, l4;
+        for (auto it = x.v->begin(); it != x.v->end(); ++it) l1.push_back(conv<T>::show(*it));
+        for (auto it = cv.begin(); it != cv.end(); ++it) l2.push_back(conv<T>::show(*it));
+        for (auto it = cv.cbegin(); it != cv.cend(); ++it) l3.push_back(conv<T>::show(*it));
+        for (const T &e : cv) l4.push_back(conv<T>::show(e));
+        obs = (l1 == l2 && l2 == l3 && l3 == l4) ? show_list(l1) : "X";
+      }
+      else if (op == "iterRev")
+      {
+        std::vector<std::string> l1, l2;
+        for (auto it = x.v->rbegin(); it != x.v->rend(); ++it) l1.push_back(conv<T>::show(*it));
+        for (auto it = cv.rbegin(); it != cv.rend(); ++it) l2.push_back(conv<T>::show(*it));
+        obs = (l1 == l2 && x.v->rbegin().base() == x.v->end() && x.v->rend().base() == x.v->begin())
+              ? show_list(l1) : "X";
+      }
+      else if (op == "empty") obs = cv.empty() ? "1" : "0";
+      else if (op == "size")
+      {
+        obs = std::to_string(cv.size());
+        if (std::size_t(cv.end() - cv.begin()) != cv.size() || std::size_t(x.v->end() - x.v->begin()) != cv.size()
+            || std::size_t(cv.cend() - cv.cbegin()) != cv.size()) obs = "X";
+      }
+      else if (op == "capOk") obs = (cv.capacity() >= std::max(S, cv.size())) ? "1" : "0";
+      else if (nargs >= 0)
+      {
+        emk<T>::go(*x.v, nargs, int(a[0]));
+        emk<T>::go(x.o, nargs, int(a[0]));
+      }
+      else if (op == "pushBack" || op == "emplaceBack")
       {
         if (self)
         {
@@ -349,6 +623,15 @@ struct session_impl final : session
       {
         if (std::size_t(a[0]) > x.v->size()) return "precond";
         std::vector<T> vals;
+        for (std::size_t i = 2; i < a.size(); ++i) vals.push_back(conv<T>::make(int(a[i])));
+        auto it = x.v->insert(x.v->begin() + a[0], vals.begin(), vals.end());
+        obs = std::to_string(it - x.v->begin());
+        x.o.insert(x.o.begin() + a[0], vals.begin(), vals.end());
+      }
+      else if (op == "insertL")      // bidirectional (non random access) source iterators
+      {
+        if (std::size_t(a[0]) > x.v->size()) return "precond";
+        std::list<T> vals;
         for (std::size_t i = 2; i < a.size(); ++i) vals.push_back(conv<T>::make(int(a[i])));
         auto it = x.v->insert(x.v->begin() + a[0], vals.begin(), vals.end());
         obs = std::to_string(it - x.v->begin());
@@ -378,15 +661,18 @@ struct session_impl final : session
         const SV &cv = *x.v;
         obs = conv<T>::show(cv[std::size_t(a[0])]);
       }
-      else  // cmpEq, cmpLt
+      else if (op == "cmpMixed")
       {
         if (!y.specified) return "precond";
-        const bool got = op == "cmpEq" ? (*x.v == *y.v) : (*x.v < *y.v);
-        const bool want = op == "cmpEq" ? (x.o == y.o) : (x.o < y.o);
-        const bool ne = (*x.v != *y.v), gt = (*x.v > *y.v), le = (*x.v <= *y.v), ge = (*x.v >= *y.v);
-        const bool lt = (*x.v < *y.v), eq = (*x.v == *y.v);
-        obs = std::string(got ? "1" : "0") + (want ? "1" : "0")
-              + ((ne == !eq && gt == (*y.v < *x.v) && le == !gt && ge == !lt) ? "c" : "i");
+        const bool flip = a[1] == 1;
+        obs = a[0] == 1 ? cmp_mixed<1>(x, y, ck, flip) : a[0] == 4 ? cmp_mixed<4>(x, y, ck, flip)
+                                                                  : cmp_mixed<8>(x, y, ck, flip);
+      }
+      else  // cmp, cmpEq, cmpLt: all six operators against the six operators of std::vector
+      {
+        if (!y.specified) return "precond";
+        const SV &cy = *y.v;
+        obs = cmp_obs(six(cv, cy), six(x.o, y.o), ck);
       }
     }
     std::string s = "ok " + obs + " | " + show(r_[0]) + " | " + show(r_[1]) + " | ev";
@@ -428,10 +714,32 @@ template<class T> std::unique_ptr<session> make_s(long s)
   default: return nullptr;
   }
 }
-}  // namespace
+std::unique_ptr<session> make_int(long);
+std::unique_ptr<session> make_double(long);
+std::unique_ptr<session> make_string(long);
+std::unique_ptr<session> make_tracked(long);
+std::unique_ptr<session> make_pod(long);
+#if C20_HAS(1)
+std::unique_ptr<session> make_int(long s) { return make_s<int>(s); }
+#endif
+#if C20_HAS(2)
+std::unique_ptr<session> make_double(long s) { return make_s<double>(s); }
+#endif
+#if C20_HAS(3)
+std::unique_ptr<session> make_string(long s) { return make_s<std::string>(s); }
+#endif
+#if C20_HAS(4)
+std::unique_ptr<session> make_tracked(long s) { return make_s<Tracked>(s); }
+#endif
+#if C20_HAS(5)
+std::unique_ptr<session> make_pod(long s) { return make_s<Pod>(s); }
+#endif
+}  // namespace c20
 
+#if C20_HAS(0)
 int main()
 {
+  using namespace c20;
   std::unique_ptr<session> cur;
   std::string line;
   line.reserve(1 << 16);       // keep the harness's own allocations out of the per-script balance
@@ -450,10 +758,11 @@ int main()
       if (t.size() != 3 || !num(t[2], s)) { std::cout << "bad-op" << std::endl; continue; }
       cur.reset();
       registry.clear();
-      if (t[1] == "int") cur = make_s<int>(s);
-      else if (t[1] == "double") cur = make_s<double>(s);
-      else if (t[1] == "string") cur = make_s<std::string>(s);
-      else if (t[1] == "tracked") cur = make_s<Tracked>(s);
+      if (t[1] == "int") cur = make_int(s);
+      else if (t[1] == "double") cur = make_double(s);
+      else if (t[1] == "string") cur = make_string(s);
+      else if (t[1] == "tracked") cur = make_tracked(s);
+      else if (t[1] == "pod") cur = make_pod(s);
       std::cout << (cur ? "ok new" : "bad-op") << std::endl;
       continue;
     }
@@ -469,3 +778,4 @@ int main()
   }
   return 0;
 }
+#endif
